@@ -64,10 +64,12 @@ Dispense(st, n, q) ==
      ELSE LET s2 == [s EXCEPT !.used = IF s.used.has THEN Q(s.used.unit, s.used.m + cu.m) ELSE NoQ,
                               !.remaining = IF s.remaining.has THEN Q(s.remaining.unit, Max(0, s.remaining.m - cr.m)) ELSE NoQ]
           IN [err |-> "OK", post |-> PutStock(st, s2), ret |-> SomeStock(s2)]
-\* every conversion a Dispense needs is one the arithmetic is exact for
+\* every conversion a Dispense needs is one the arithmetic is exact for, and the amounts it starts from are
+\* eighths of their unit (an earlier CUP <-> l/m3 dispense may have left an amount float32 sums round on)
+Eighths(q) == q.has => q.m % 125 = 0
 DispenseExact(st, n, q) ==
-  HasStock(st, n) => LET s == Stock(st, n) IN (s.used.has => Exact(q.unit, s.used.unit))
-                                               /\ (s.remaining.has => Exact(q.unit, s.remaining.unit))
+  HasStock(st, n) => LET s == Stock(st, n) IN (s.used.has => Exact(q.unit, s.used.unit)) /\ Eighths(s.used)
+                                               /\ (s.remaining.has => Exact(q.unit, s.remaining.unit)) /\ Eighths(s.remaining)
 
 CreateStock(st, s) ==
   IF HasStock(st, s.name) THEN [err |-> "AlreadyExists", post |-> st, ret |-> NoStock]
